@@ -74,4 +74,106 @@ func (v *ValueStore) sweep(ctx context.Context, prefix string)
   modifies nothing
   ghost at call(expired): $exp = $ret0
   ghost at before call(discardIfUnchanged): assert($exp && $arg2 == valueDsKey($arg1))
+
+# ---- provider store (C07) ------------------------------------------------------
+ghost field (providerSet) $pos map[peer.ID]int
+# providers is duplicate-free and is exactly the key set of set
+pred psWF(ps *providerSet) = ps.set != nil
+   | && all(i, 0, len(ps.providers), has(ps.set, ps.providers[i]) && ps.$pos[ps.providers[i]] == i)
+   | && allT(p, peer.ID, imp(has(ps.set, p), 0 <= ps.$pos[p] && ps.$pos[p] < len(ps.providers) && ps.providers[ps.$pos[p]] == p))
+
+guarded_by ProviderManager.mu : ProviderManager.stopped
+
+func mkProvKeyFor(k []byte, p peer.ID) string
+  props C07
+  function
+func mkProvKey(k []byte) string
+  props C07
+  function
+
+func newProviderSet() *providerSet
+  props C07
+  modifies nothing
+  ensures fresh(result) && psWF(result) && len(result.providers) == 0
+
+func (ps *providerSet) setVal(p peer.ID, t time.Time)
+  props C07
+  requires psWF(ps)
+  modifies ps.providers, *ps.set, ps.$pos
+  ensures psWF(ps)
+  ensures [refresh] has(ps.set, p) && ps.set[p] == t
+  ensures [others-kept] allT(q, peer.ID, imp(q != p, has(ps.set, q) == old(has(ps.set, q)) && ps.set[q] == old(ps.set[q])))
+  ensures len(ps.providers) == old(len(ps.providers)) + ite(old(has(ps.set, p)), 0, 1)
+  ghost at append(ps.providers): ps.$pos[p] = len(ps.providers)-1
+
+func (ps *providerSet) Add(p peer.ID)
+  props C07
+  requires psWF(ps)
+  modifies ps.providers, *ps.set, ps.$pos
+  ensures psWF(ps) && has(ps.set, p)
+
+func writeProviderEntry(ctx context.Context, dstore ds.Datastore, k []byte, p peer.ID, t time.Time) error
+  props C07
+  modifies nothing
+  ghost at before call(Put): assert($arg1 == ds.NewKey(mkProvKeyFor(k, p)))
+
+func (pm *ProviderManager) AddProvider(ctx context.Context, k []byte, provInfo peer.AddrInfo) error
+  props C07 C14
+  ghostvar $now time.Time = any
+  modifies *
+  ensures [closed] imp(pm.stopped, result != nil)
+  ghost at call(Now): $now = $ret0
+  ghost at before call(Get): assert(held(pm.mu) && !pm.stopped)
+  ghost at before call(setVal): assert(held(pm.mu) && $arg0 == provInfo.ID && $arg1 == $now)
+  ghost at before call(writeProviderEntry): assert(held(pm.mu) && !pm.stopped); assert($arg2 == k && $arg3 == provInfo.ID && $arg4 == $now)
+
+func (pm *ProviderManager) Close() error
+  props C07 C14
+  modifies *
+  ensures pm.stopped
+
+func (pm *ProviderManager) GetProviders(ctx context.Context, k []byte) ([]peer.AddrInfo, error)
+  props C07 C14
+  modifies *
+  ghost at before call(getProviderSetForKey): assert(held(pm.mu) && !pm.stopped && $arg1 == k)
+
+func (pm *ProviderManager) collectExpired(ctx context.Context)
+  props C07
+  ghostvar $err error = nil
+  ghostvar $age time.Duration = 0
+  modifies *
+  ghost at call(readTimeValue): $err = $ret1
+  ghost at call(Sub): $age = $ret0
+  ghost at before call(Delete): assert($err != nil || $age > pm.provideValidity)
+
+func loadProviderSet(ctx context.Context, dstore ds.Datastore, provideValidity time.Duration, k []byte) (*providerSet, error)
+  props C07
+  ghostvar $err error = nil
+  ghostvar $age time.Duration = 0
+  ghostvar $t time.Time = any
+  ghostvar $derr error = nil
+  modifies nothing
+  ensures imp(result1 == nil, result0 != nil && fresh(result0) && psWF(result0))
+  ensures imp(result1 != nil, result0 == nil)
+  loop 0 invariant out != nil && fresh(out) && psWF(out)
+  ghost at before call(Query): assert($arg1.Prefix == mkProvKey(k))
+  ghost at call(readTimeValue): $err = $ret1; $t = $ret0
+  ghost at call(Sub): $age = $ret0
+  ghost at call(DecodeString): $derr = $ret1
+  ghost at before call(Delete)#0: assert($err != nil || $age > provideValidity)
+  ghost at before call(Delete)#1: assert($derr != nil)
+  ghost at before call(setVal): assert($err == nil && !($age > provideValidity) && $derr == nil && $arg1 == $t)
+
+func (pm *ProviderManager) getProviderSetForKey(ctx context.Context, k []byte) (*providerSet, error)
+  props C07
+  ghostvar $age time.Duration = 0
+  ghostvar $p2 map[peer.ID]int = any
+  modifies *
+  ensures imp(result1 == nil, result0 != nil && psWF(result0))
+  loop over ps.set invariant set != nil && fresh(set) && all(i, 0, len(providers), has(set, providers[i]) && $p2[providers[i]] == i)
+  loop over ps.set invariant allT(q, peer.ID, imp(has(set, q), $visited[q] && 0 <= $p2[q] && $p2[q] < len(providers) && providers[$p2[q]] == q))
+  ghost at append(providers): $p2[k] = len(providers)-1
+  ghost at assign(ps.set): ps.$pos = $p2
+  ghost at call(Since): $age = $ret0
+  ghost at append(providers): assert(!($age > pm.provideValidity))
 @*/
